@@ -113,21 +113,41 @@ func ruleOpMargin(c *Ctx, r *Report, prefix string) {
 		fmt.Sprintf("the margin test of encoder.writeOp is not Available() against encoder.margin = opLenMargin (stored=%v, guard=%v)", okStore, okGuard))
 	// (2) the closing of the range coder: K shiftLow calls in a counted loop
 	closeK := int64(-1)
-	nShift := 0
-	for _, b := range c.GB(closeF) {
-		for _, ins := range b.Instrs {
+	{
+		// the number of shiftLow calls on the successful path of Close (a counted loop in either
+		// direction, or unrolled)
+		spec := SeqSpec{Fn: closeF, NoMerge: true}
+		spec.Event = func(w *Walker, p *PState, ins ssa.Instruction) string {
 			if _, isC := callTo(ins, shiftLow); isC {
-				nShift++
+				return "shiftLow"
 			}
-			if bo, isB := ins.(*ssa.BinOp); isB && bo.Op == token.LSS {
-				if k, isK := constInt(bo.Y); isK {
-					closeK = k
+			return ""
+		}
+		spec.Assume = func(w *Walker, p *PState, ins ssa.Instruction) {
+			// follow the path on which every shiftLow succeeds
+			if call, isC := callTo(ins, shiftLow); isC {
+				p.AssumeNil(call)
+			}
+		}
+		paths, over := CollectPaths(c, spec)
+		if !over {
+			for _, sp := range paths {
+				if sp.ErrNil || (!sp.ErrNonNil && !sp.Panic) {
+					k := int64(0)
+					for _, l := range sp.Labels() {
+						if l == "shiftLow" {
+							k++
+						}
+					}
+					if k > closeK {
+						closeK = k
+					}
 				}
 			}
 		}
 	}
-	if nShift != 1 || closeK < 0 {
-		r.Undecided(rule, "close-bytes", c.Pos(closeF.Pos()), "rangeEncoder.Close is not a counted loop around one shiftLow call")
+	if closeK <= 0 {
+		r.Undecided(rule, "close-bytes", c.Pos(closeF.Pos()), "cannot count the shiftLow calls of rangeEncoder.Close")
 		return
 	}
 	// (3) the bound
